@@ -101,9 +101,32 @@ static void case_stats(ByteSource& in, CaseInfo& ci) {
     REQUIRE(std::abs((int)ones - (int)L / 2) <= 8 * 32, "%s: %u of %u one-bit draws are 1", K.desc.c_str(), ones, L);
     for (unsigned p = 1; p <= 1024; p++) { bool per = true; for (unsigned i = 0; i + p < L && per; i++) if (s[i] != s[i + p]) per = false; REQUIRE(!per, "%s: the stream of 1-bit draws has period %u (weak low-order bits of the recurrence reach the caller)", K.desc.c_str(), p); } }
 }
+// deterministic case: seeds whose scrambled form (seed+2)^1074888996 mod 2^19937-20023, which gmp_randseed stores into the Mersenne Twister buffer, is SHORT
+// (its top 32-bit words are zero: probability 2^-32 per word for an arbitrary seed), so that the code that fills the rest of the buffer runs.  The seeds are
+// constructed as roots: gcd(1074888996, p-1) = 12, so seed+2 = u^d with d = (1074888996/12)^-1 mod (p-1) is scrambled to u^12.  MPIR's own mpz_powm / mpz_invert are
+// used only to AIM (the construction is verified with mpz_powm_ui; if it fails the seed is merely an ordinary one); the oracle is the property itself: states
+// with different histories (fresh / used before / seeded with something else before) that are seeded with the same seed must produce the same sequence.
+static void fixed_case(unsigned k, CaseInfo& ci) {
+  if (k != 0) return;
+  ci.desc = "gmp_randseed on Mersenne Twister states with different histories, seeds whose scrambled value has 1, 243 and 620 zero top words";
+  Z p, pm1, d, u, s1, chk, t; mpz_set_ui(p.z, 0); mpz_setbit(p.z, 19937); mpz_sub_ui(p.z, p.z, 20023); mpz_sub_ui(pm1.z, p.z, 1); mpz_set_ui(t.z, 1074888996ul / 12);
+  REQUIRE(mpz_invert(d.z, t.z, pm1.z) != 0, "harness: 1074888996/12 is not invertible modulo p-1");
+  static const unsigned UB[3] = {1658, 1010, 8};   // bits of u: u^12 has about 12*bits bits of the 19936 that fill the buffer
+  for (unsigned ui = 0; ui < 3; ui++) {
+    mpz_set_ui(u.z, 0); mpz_setbit(u.z, UB[ui] - 1); mpz_add_ui(u.z, u.z, 1234567 + 2 * ui); mpz_powm(s1.z, u.z, d.z, p.z);
+    mpz_powm_ui(chk.z, s1.z, 1074888996ul, p.z); mpz_pow_ui(t.z, u.z, 12); bool aimed = mpz_cmp(chk.z, t.z) == 0 && mpz_cmp_ui(s1.z, 2) >= 0; Z seed; mpz_sub_ui(seed.z, s1.z, 2);
+    REQUIRE(aimed, "harness: the constructed seed does not scramble to u^12 (no verdict from this case)");
+    uint64_t ref[400];
+    for (int hist = 0; hist < 4; hist++) { gmp_randstate_t st; gmp_randinit_mt(st);
+      if (hist == 1) { Z j; mpz_urandomb(j.z, st, 64 * 1300); } else if (hist == 2) { Z o; mpz_set_ui(o.z, 1); mpz_mul_2exp(o.z, o.z, 19000); mpz_sub_ui(o.z, o.z, 977); gmp_randseed(st, o.z); Z j; mpz_urandomb(j.z, st, 64 * 100); } else if (hist == 3) { gmp_randseed_ui(st, 42); }
+      gmp_randseed(st, seed.z);
+      for (int i = 0; i < 400; i++) { uint64_t v = gmp_urandomb_ui(st, 64); if (hist == 0) ref[i] = v; else REQUIRE(v == ref[i], "gmp_randseed (Mersenne Twister) with a seed whose scrambled value has about %u zero top words: draw %d after seeding differs between a fresh state and a state that %s before (same seed => same sequence, whatever the state held)", (19936 - 12 * UB[ui]) / 32, i, hist == 1 ? "had produced 1300 limbs" : hist == 2 ? "was seeded with another multi-limb seed and used" : "was seeded with gmp_randseed_ui(42)"); }
+      gmp_randclear(st); }
+  }
+}
 static void check(ByteSource& in, CaseInfo& ci) { if (in.pick({30, 1}) == 0) case_history(in, ci); else case_stats(in, ci); }
 namespace eng {
 PropDef g_prop = {"C19",
   "Cases: (a) histories: a generator of kind mt / lc_2exp(a,c,m2exp 2..300) / lc_2exp_size(1..128) seeded with 0, 1, 2^64-1, random or multi-limb seeds (gmp_randseed or gmp_randseed_ui), then 1..14 draws interleaving mpz_urandomb (n in 0,1,2,31..33,63..65,127..129, around the Mersenne Twister refill boundary 19937+-70, up to 60000), mpz_urandomm (n in 1,2,2^k,2^k+-1,odd limb,multi-limb, rop==n), mpz_rrandomb, mpn_urandomb/urandomm/randomb/rrandom, gmp_urandomb_ui/urandomm_ui, mpf_urandomb; a twin state (same algorithm and seed from the start, or a gmp_randinit_set copy made at a generated point) performs the same calls. (b) statistics batches of 16384 draws (1 in 31 cases): chi-square of the top and low 8 bits, every bit position within 8 sigma, chi-square of mpz_urandomm over 16 bins, and for the linear congruential kinds (table entries and user parameters with a=5 mod 8, c odd, m2exp>=32) the 4096-draw stream of 1-bit values must have no period <= 1024. Oracle: refint range checks (< 2^n, < n, top limb non-zero, 0 <= f < 1), twin equality after every step, fixed acceptance regions with false-alarm probability < 1e-12 per test. Non-trivial: history of >= 2 draws or a statistics batch. Distinct = hash of all decoded choices.",
-  check, nullptr, {"kind:mt", "kind:lc_2exp", "kind:lc_2exp_size", "twin:same_seed", "twin:randinit_set", "seed:multi_limb", "statistics", "one_bit_stream", "mt_refill_boundary_request", "urandomm:rop==n", "mpf_urandomb", "mpn_randomb", "urandomm:top_limb_one_low_limb_nonzero", "mpf_urandomb:zero_bits", "mpf_urandomb:more_bits_than_precision"}};
+  check, nullptr, {"kind:mt", "kind:lc_2exp", "kind:lc_2exp_size", "twin:same_seed", "twin:randinit_set", "seed:multi_limb", "statistics", "one_bit_stream", "mt_refill_boundary_request", "urandomm:rop==n", "mpf_urandomb", "mpn_randomb", "urandomm:top_limb_one_low_limb_nonzero", "mpf_urandomb:zero_bits", "mpf_urandomb:more_bits_than_precision"}, fixed_case};
 }
